@@ -49,6 +49,11 @@ theorem sites_guarded :
 theorem nil_header_is_error :
     Generated.C09.headerNilIsError = true ∧ Generated.C09.blockNilHeaderIsError = true := by decide
 
+/-- The model treats every `Marshal*` / `UnMarshal*` / converter as a pure function of its argument
+    (a marshal result is a value, not a view of a buffer another call rewrites). The source agrees:
+    no function of serialization.go touches a package-level variable other than the logger. -/
+theorem codec_is_stateless : Generated.C09.sharedStateRefs = 0 := by decide
+
 /-! ## parse_total: parsing arbitrary bytes yields an object or an error, never a panic, never (nil, nil) -/
 
 def IsObjOrErr {α : Type} : Outcome α → Prop
